@@ -7,7 +7,7 @@ rsync -a --exclude=.git /repo/ $t/tree/
 ( cd $t/tree && patch -p1 -s < "$patch" ) || { echo "patch does not apply"; rm -rf $t; exit 2; }
 mkdir -p $t/out; cp /verif/known_findings.json $t/out/ 2>/dev/null
 for p in "$@"; do
-  out=$(GCV_REPO=$t/tree GCV_VERIF=$t/out GCV_VARIANT=1 /verif/bin/gcv -p $p 2>&1)
+  out=$(GCV_REPO=$t/tree GCV_VERIF=$t/out GCV_VARIANT=1 ${GCV_BIN:-/verif/bin/gcv} -p $p 2>&1)
   echo "$out" | grep -A1 "^VIOLATION" | grep "rule" | cut -c1-260 | head -8
   echo "$out" | tail -1
 done
